@@ -441,7 +441,10 @@ Definition front (con propagate : bool) (self : tree) (others : list tree) (out 
 (* ------------------------------------------------------------------ lazy stacks: per-member dispatch
    (batch_size override absent: with it the call is TensorDict._apply_nest on the stacked view, i.e. [front]).
    names= / batch_size= are not forwarded to the members.  _zip_strict(self.tensordicts, *others): a ValueError when an
-   operand runs out of members, raised at that position. *)
+   operand runs out of members, raised at that position.
+   Every other operand is given as the list of its slices ALONG SELF'S STACK DIM: the i-th member of self is paired with
+   other[(slice(None),) * self.stack_dim + (i,)] = other.unbind(self.stack_dim)[i], whatever the representation of the
+   operand (a lazy stack along the same or along another dim, a dense tensordict, a tensorclass). *)
 Fixpoint heads (ls : list (list tree)) : option (list tree) :=
   match ls with
   | [] => Some []
